@@ -482,6 +482,9 @@ Definition read_back (ctx info : bytes) : res ulog :=
         else Err
     end
   end.
+(* Undo under the configuration in force at rollback time (after a restart, on another instance): the
+   reader's configuration is not an input of the decoding, only the two stored columns are *)
+Definition undo_read (reader : cfg) (ctx info : bytes) : res ulog := read_back ctx info.
 End Compose.
 
 (* ---------------------------------------------------------------- equivalence of logs *)
